@@ -13,7 +13,7 @@ EXPLANATION = (
 NOT_DECIDED = ("distance in (0, step], helix accuracy, momentum conservation inside the steppers, "
                "chord / intersection tolerances (numeric)")
 
-TECHNIQUE = ('CFG pairing (ODE position write <-> geometry move), reaching definitions for the final direction, loop-progress (every body path redefines the loop variables), provenance pairing of the (state, step) components returned by the field driver with a path-sensitive staleness walk')
+TECHNIQUE = ('CFG pairing (ODE position write <-> geometry move), reaching definitions for the final direction, loop-progress (every body path redefines the loop variables), provenance pairing of the (state, step) components returned by the field driver with a path-sensitive staleness walk; reaching-definition bound of the sub-step length; return-shape rule on the accept threshold; field-coverage of the stored driver options')
 
 UNITS = [
     "src/celeritas/global/alongstep/AlongStepUniformMscAction.cc",
